@@ -10,6 +10,7 @@ import (
 	"time"
 
 	log "github.com/go-spring/log"
+	"github.com/go-spring/log/expr"
 )
 
 // ---------------------------------------------------------------------------------------------
@@ -98,6 +99,9 @@ func keepAllHandles(name string) bool { return name == "root" }
 // are ignored: the case itself reports what matters.
 func warmHistory() {
 	safeCall(func() {
+		// the process has already rejected malformed expressions (more syntax errors than any per-call cap)
+		expr.Parse("@@@@ #### ^^^^ T{{{{")
+		expr.Parse("T{a=}")
 		log.VerifReset(keepBuiltinTags, keepAllHandles)
 		log.Stdout = &bytes.Buffer{}
 		for _, fast := range []string{"false", "true"} {
